@@ -1,6 +1,7 @@
 """Base class of the multi-threaded checks: the real library under the baton scheduler (harness/ivmt.c)
 produces a log per scenario; the extracted Coq acceptor model + monitor judges it (see docs/MT_GUIDE.md)."""
 import hashlib
+import re
 import os
 
 import vlib
@@ -57,6 +58,12 @@ class MTCheck(LineCheck):
                 div.append((idx, v))
             elif not v.startswith("OK"):
                 monfail.append((idx, v))
+            else:
+                # harness rules of the virtual kernel (vk.c), traced as "X ..." segments: e.g. close of a descriptor that is
+                # not open (double close).  The log parsers drop segments they do not know, so they are judged here.
+                xs = [seg for seg in io.split(" | ") if re.match(r"(\d+:)?X ", seg)]
+                if xs:
+                    monfail.append((idx, "harness rule violated by the implementation: " + xs[0]))
             if self.nontrivial(c, io):
                 nontriv.add(hashlib.sha1(c.encode()).hexdigest())
         # mres: the verdict of the acceptor stands in for "model output"
